@@ -5,6 +5,8 @@
 -/
 import QV.Proofs.ZoneFile.Frame
 import QV.Proofs.ZoneFile.Files
+import QV.Proofs.ZoneFile.Shift
+import QV.Proofs.ZoneFile.Paren
 
 namespace QV.ZF
 open QV
@@ -157,6 +159,339 @@ theorem collect_append (b : List UInt8) (n : Nat) : ∀ (x : List UInt8), x.leng
           rw [collect_none hn, Parser.finish, hn]
           simp only [List.nil_append]
           exact collect_of_untilData_eq k2 hctx' (by simp)
+      | err e =>
+        exfalso
+        have hmem : Yield.err e ∈ collect ⟨false, ⟨x, line, p⟩, ctx⟩ := by
+          rw [collect]; simp [Parser.next, hu]
+        obtain ⟨i, hi⟩ := hok _ hmem
+        cases hi
+      | panic =>
+        exfalso
+        have hmem : Yield.panic ∈ collect ⟨false, ⟨x, line, p⟩, ctx⟩ := by
+          rw [collect]; simp [Parser.next, hu]
+        obtain ⟨i, hi⟩ := hok _ hmem
+        cases hi
+
+/-! ### the end of a reading: outside parentheses; independent of the line counter -/
+
+theorem next_paren (p p' : Parser) (y : Option Yield) (h : p.next = (y, p')) (hp : p.st.paren = false) :
+    p'.st.paren = false := by
+  obtain ⟨e, st, ctx⟩ := p
+  unfold Parser.next at h
+  cases e with
+  | true => simp at h; rw [← h.2]; exact hp
+  | false =>
+    simp only [Bool.false_eq_true, ↓reduceIte] at h
+    cases hu : untilData ctx st with
+    | ok r =>
+      obtain ⟨⟨it?, ctx'⟩, st'⟩ := r
+      have := untilData_paren ctx st _ _ hu hp
+      rw [hu] at h
+      cases it? <;> (simp at h; rw [← h.2]; exact this)
+    | err e => rw [hu] at h; simp at h; rw [← h.2]; exact hp
+    | panic => rw [hu] at h; simp at h; rw [← h.2]; exact hp
+
+theorem finish_paren_aux (n : Nat) : ∀ (p : Parser), p.st.inp.length ≤ n → p.st.paren = false →
+    p.finish.st.paren = false := by
+  induction n with
+  | zero =>
+    intro p hlen hp
+    rw [Parser.finish]
+    cases hn : p.next with
+    | mk y p' =>
+      have := next_paren p p' y hn hp
+      cases y with
+      | none => exact this
+      | some y =>
+        cases y with
+        | item i =>
+          have hlt : ¬ p'.st.inp.length < p.st.inp.length := by omega
+          simp only [hlt, ↓reduceIte]; exact this
+        | err e => exact this
+        | panic => exact this
+  | succ n ih =>
+    intro p hlen hp
+    rw [Parser.finish]
+    cases hn : p.next with
+    | mk y p' =>
+      have := next_paren p p' y hn hp
+      cases y with
+      | none => exact this
+      | some y =>
+        cases y with
+        | item i =>
+          simp only
+          split
+          · next hlt => exact ih p' (by omega) this
+          · exact this
+        | err e => exact this
+        | panic => exact this
+
+theorem finish_paren (p : Parser) (hp : p.st.paren = false) : p.finish.st.paren = false :=
+  finish_paren_aux p.st.inp.length p (Nat.le_refl _) hp
+
+/-- the records among what the iterator yields, without their line numbers -/
+def recsOfY (ys : List Yield) : List Rec :=
+  ys.filterMap fun y => match y with
+    | .item (.record _ r) => some r
+    | _ => none
+
+theorem recsOfY_shift (ys : List Yield) (k : Nat) : recsOfY (ys.map (shiftY k)) = recsOfY ys := by
+  induction ys with
+  | nil => rfl
+  | cons y ys ih =>
+    simp only [recsOfY, List.map_cons, List.filterMap_cons] at ih ⊢
+    cases y with
+    | item i => cases i <;> simp [shiftY, shItem, ih]
+    | err e => simp [shiftY, ih]
+    | panic => simp [shiftY, ih]
+
+/-- the records of a text do not depend on the line at which reading starts -/
+theorem recsOfY_line (x : List UInt8) (l1 l2 : Nat) (q : Bool) (ctx : Ctx) :
+    recsOfY (collect ⟨false, ⟨x, l1, q⟩, ctx⟩) = recsOfY (collect ⟨false, ⟨x, l2, q⟩, ctx⟩) := by
+  have h1 := collect_shift ⟨false, ⟨x, 0, q⟩, ctx⟩ l1
+  have h2 := collect_shift ⟨false, ⟨x, 0, q⟩, ctx⟩ l2
+  simp only [shiftParser, shiftSt, Nat.zero_add] at h1 h2
+  rw [h1, h2, recsOfY_shift, recsOfY_shift]
+
+theorem next_item_error (p p' : Parser) (i : Item) (h : p.next = (some (.item i), p')) :
+    p.error = false ∧ p'.error = false := by
+  obtain ⟨e, st, ctx⟩ := p
+  unfold Parser.next at h
+  cases e with
+  | true => simp at h
+  | false =>
+    simp only [Bool.false_eq_true, ↓reduceIte] at h
+    cases hu : untilData ctx st with
+    | ok r =>
+      obtain ⟨⟨it?, ctx'⟩, st'⟩ := r
+      rw [hu] at h
+      cases it? <;> simp at h
+      exact ⟨rfl, by rw [← h.2]⟩
+    | err e => rw [hu] at h; simp at h
+    | panic => rw [hu] at h; simp at h
+
+theorem next_fail_ctx (p p' : Parser) (y : Yield) (h : p.next = (some y, p')) (hy : ∀ i, y ≠ .item i) :
+    p'.ctx = p.ctx := by
+  obtain ⟨e, st, ctx⟩ := p
+  unfold Parser.next at h
+  cases e with
+  | true => simp at h
+  | false =>
+    simp only [Bool.false_eq_true, ↓reduceIte] at h
+    cases hu : untilData ctx st with
+    | ok r =>
+      obtain ⟨⟨it?, ctx'⟩, st'⟩ := r
+      rw [hu] at h
+      cases it? <;> simp at h
+      exact absurd h.1.symm (hy _)
+    | err e => rw [hu] at h; simp at h; rw [← h.2]
+    | panic => rw [hu] at h; simp at h; rw [← h.2]
+
+/-- the context in which a reading ends is well formed -/
+theorem finish_ctxWF_aux (n : Nat) : ∀ (q : Parser), q.st.inp.length ≤ n → CtxWF q.ctx → CtxWF q.finish.ctx := by
+  induction n with
+  | zero =>
+    intro q hlen hq
+    rw [Parser.finish]
+    have g := next_spec (p := q) hq
+    cases hn : q.next with
+    | mk y q' =>
+      rw [hn] at g
+      cases y with
+      | none => exact g
+      | some y =>
+        cases y with
+        | item i => have := g.2.2; omega
+        | err e => simp only; rw [next_fail_ctx q q' _ hn (by intro i h; cases h)]; exact hq
+        | panic => exact g.elim
+  | succ n ih =>
+    intro q hlen hq
+    rw [Parser.finish]
+    have g := next_spec (p := q) hq
+    cases hn : q.next with
+    | mk y q' =>
+      rw [hn] at g
+      cases y with
+      | none => exact g
+      | some y =>
+        cases y with
+        | item i =>
+          simp only
+          split
+          · exact ih q' (by have := g.2.2; omega) g.2.1
+          · exact g.2.1
+        | err e => simp only; rw [next_fail_ctx q q' _ hn (by intro i h; cases h)]; exact hq
+        | panic => exact g.elim
+
+theorem finish_ctxWF (q : Parser) (hq : CtxWF q.ctx) : CtxWF q.finish.ctx :=
+  finish_ctxWF_aux q.st.inp.length q (Nat.le_refl _) hq
+
+/-! ### more on the end of a reading -/
+
+theorem finish_shift_aux (k : Nat) (n : Nat) : ∀ (p : Parser), p.st.inp.length ≤ n →
+    (shiftParser k p).finish = shiftParser k p.finish := by
+  induction n with
+  | zero =>
+    intro p hlen
+    rw [Parser.finish, Parser.finish, next_shift]
+    cases hn : p.next with
+    | mk y p' =>
+      cases y with
+      | none => rfl
+      | some y =>
+        cases y with
+        | item i =>
+          have hlt : ¬ p'.st.inp.length < p.st.inp.length := by omega
+          have hlt' : ¬ (shiftParser k p').st.inp.length < (shiftParser k p).st.inp.length := by
+            simpa [shiftParser] using hlt
+          simp only [Option.map_some, shiftY, hlt, hlt', ↓reduceIte]
+        | err e => rfl
+        | panic => rfl
+  | succ n ih =>
+    intro p hlen
+    rw [Parser.finish, Parser.finish, next_shift]
+    cases hn : p.next with
+    | mk y p' =>
+      cases y with
+      | none => rfl
+      | some y =>
+        cases y with
+        | item i =>
+          simp only [Option.map_some, shiftY]
+          by_cases hlt : p'.st.inp.length < p.st.inp.length
+          · have hlt' : (shiftParser k p').st.inp.length < (shiftParser k p).st.inp.length := by
+              simpa [shiftParser] using hlt
+            simp only [hlt, hlt', ↓reduceIte]
+            exact ih p' (by omega)
+          · have hlt' : ¬ (shiftParser k p').st.inp.length < (shiftParser k p).st.inp.length := by
+              simpa [shiftParser] using hlt
+            simp only [hlt, hlt', ↓reduceIte]
+        | err e => rfl
+        | panic => rfl
+
+theorem finish_shift (p : Parser) (k : Nat) : (shiftParser k p).finish = shiftParser k p.finish :=
+  finish_shift_aux k p.st.inp.length p (Nat.le_refl _)
+
+/-- the context in which a reading ends does not depend on the line at which it starts -/
+theorem finish_ctx_line (x : List UInt8) (l1 l2 : Nat) (q : Bool) (ctx : Ctx) :
+    (Parser.finish ⟨false, ⟨x, l1, q⟩, ctx⟩).ctx = (Parser.finish ⟨false, ⟨x, l2, q⟩, ctx⟩).ctx := by
+  have h1 := finish_shift ⟨false, ⟨x, 0, q⟩, ctx⟩ l1
+  have h2 := finish_shift ⟨false, ⟨x, 0, q⟩, ctx⟩ l2
+  simp only [shiftParser, shiftSt, Nat.zero_add] at h1 h2
+  rw [h1, h2]
+
+theorem Term_append {a b : List UInt8} (ha : a = [] ∨ Term a) (hb : b = [] ∨ Term b) :
+    a ++ b = [] ∨ Term (a ++ b) := by
+  rcases hb with rfl | hb
+  · simpa using ha
+  · right
+    obtain ⟨b0, rfl, h92⟩ := hb
+    refine ⟨a ++ b0, by simp, ?_⟩
+    cases b0 with
+    | nil =>
+      rcases ha with rfl | ⟨a0, rfl, ha92⟩
+      · simpa using h92
+      · simp
+    | cons c t =>
+      rw [List.getLast?_append]
+      simpa using h92
+
+theorem finish_of_none {p p' : Parser} (hn : p.next = (none, p')) : p.finish = p' := by
+  rw [Parser.finish, hn]
+
+theorem finish_of_item {p p' : Parser} {i : Item} (hn : p.next = (some (.item i), p'))
+    (hlt : p'.st.inp.length < p.st.inp.length) : p.finish = p'.finish := by
+  rw [Parser.finish, hn]; simp [hlt]
+
+/-- two reader states from which `parse_lines_until_returnable_data_found` behaves the same,
+    without error, end in the same state -/
+theorem finish_of_untilData_eq {ctx1 ctx2 : Ctx} {st1 st2 : St} (h : untilData ctx1 st1 = untilData ctx2 st2)
+    (hctx : CtxWF ctx2) (hlen : st2.inp.length ≤ st1.inp.length)
+    (hok : ∀ y ∈ collect ⟨false, st2, ctx2⟩, ∃ i, y = .item i) :
+    Parser.finish ⟨false, st1, ctx1⟩ = Parser.finish ⟨false, st2, ctx2⟩ := by
+  have g := next_spec (p := ⟨false, st2, ctx2⟩) hctx
+  cases hu : untilData ctx2 st2 with
+  | ok r =>
+    obtain ⟨⟨it?, ctx'⟩, st'⟩ := r
+    cases it? with
+    | none =>
+      have n1 : (⟨false, st1, ctx1⟩ : Parser).next = (none, ⟨false, st', ctx'⟩) := by simp [Parser.next, h, hu]
+      have n2 : (⟨false, st2, ctx2⟩ : Parser).next = (none, ⟨false, st', ctx'⟩) := by simp [Parser.next, hu]
+      rw [finish_of_none n1, finish_of_none n2]
+    | some item =>
+      have n1 : (⟨false, st1, ctx1⟩ : Parser).next = (some (.item item), ⟨false, st', ctx'⟩) := by
+        simp [Parser.next, h, hu]
+      have n2 : (⟨false, st2, ctx2⟩ : Parser).next = (some (.item item), ⟨false, st', ctx'⟩) := by
+        simp [Parser.next, hu]
+      rw [n2] at g
+      have h2 : st'.inp.length < st2.inp.length := g.2.2
+      rw [finish_of_item n1 (by simp only; omega), finish_of_item n2 h2]
+  | err e =>
+    exfalso
+    have hmem : Yield.err e ∈ collect ⟨false, st2, ctx2⟩ := by rw [collect]; simp [Parser.next, hu]
+    obtain ⟨i, hi⟩ := hok _ hmem
+    cases hi
+  | panic =>
+    exfalso
+    have hmem : Yield.panic ∈ collect ⟨false, st2, ctx2⟩ := by rw [collect]; simp [Parser.next, hu]
+    obtain ⟨i, hi⟩ := hok _ hmem
+    cases hi
+
+/-- the end of reading `x ++ b` is the end of reading `b` from where `x` ended (no errors) -/
+theorem finish_append (b : List UInt8) (n : Nat) : ∀ (x : List UInt8), x.length ≤ n → (x = [] ∨ Term x) →
+    ∀ (ctx : Ctx) (hctx : CtxWF ctx) (line : Nat) (p : Bool),
+    (∀ y ∈ collect ⟨false, ⟨x, line, p⟩, ctx⟩, ∃ i, y = .item i) →
+    (∀ y ∈ collect ⟨false, ⟨b, (Parser.finish ⟨false, ⟨x, line, p⟩, ctx⟩).st.line,
+          (Parser.finish ⟨false, ⟨x, line, p⟩, ctx⟩).st.paren⟩, (Parser.finish ⟨false, ⟨x, line, p⟩, ctx⟩).ctx⟩,
+        ∃ i, y = .item i) →
+    Parser.finish ⟨false, ⟨x ++ b, line, p⟩, ctx⟩ =
+      Parser.finish ⟨false, ⟨b, (Parser.finish ⟨false, ⟨x, line, p⟩, ctx⟩).st.line,
+          (Parser.finish ⟨false, ⟨x, line, p⟩, ctx⟩).st.paren⟩, (Parser.finish ⟨false, ⟨x, line, p⟩, ctx⟩).ctx⟩ := by
+  induction n with
+  | zero =>
+    intro x hlen hx ctx hctx line p hok hokb
+    have : x = [] := List.length_eq_zero_iff.mp (by omega)
+    subst this
+    have hn : (⟨false, ⟨[], line, p⟩, ctx⟩ : Parser).next = (none, ⟨false, ⟨[], line, p⟩, ctx⟩) := by
+      simp [Parser.next, untilData]
+    rw [finish_of_none hn]
+    simp
+  | succ n ih =>
+    intro x hlen hx ctx hctx line p hok hokb
+    rcases hx with rfl | hT
+    · exact ih [] (by simp) (.inl rfl) ctx hctx line p hok hokb
+    · obtain ⟨a1, a2⟩ := untilData_append ctx b x.length x (Nat.le_refl _) hT ctx line p
+      have g := next_spec (p := ⟨false, ⟨x, line, p⟩, ctx⟩) hctx
+      cases hu : untilData ctx ⟨x, line, p⟩ with
+      | ok r =>
+        obtain ⟨⟨it?, ctx'⟩, st'⟩ := r
+        cases it? with
+        | some item =>
+          obtain ⟨k1, k2⟩ := a1 item ctx' st' hu
+          have hn := next_of_untilData hu
+          have hn' := next_of_untilData k1
+          rw [hn] at g
+          obtain ⟨_, hctx', hlt⟩ := g
+          simp only at hlt hctx'
+          have hlt' : (st'.inp ++ b).length < (x ++ b).length := by simp; omega
+          have hfin := finish_of_item hn hlt
+          rw [hfin] at hokb ⊢
+          rw [finish_of_item hn' (by simpa using hlt')]
+          have hok' : ∀ y ∈ collect ⟨false, ⟨st'.inp, st'.line, st'.paren⟩, ctx'⟩, ∃ i, y = .item i := by
+            intro y hy
+            apply hok
+            rw [collect_item hn hlt]
+            exact List.mem_cons_of_mem _ hy
+          exact ih st'.inp (by omega) k2 ctx' hctx' st'.line st'.paren hok' hokb
+        | none =>
+          obtain ⟨k1, k2⟩ := a2 ctx' st' hu
+          have hn : (⟨false, ⟨x, line, p⟩, ctx⟩ : Parser).next = (none, ⟨false, st', ctx'⟩) := by
+            simp [Parser.next, hu]
+          rw [hn] at g
+          have hctx' : CtxWF ctx' := g
+          rw [finish_of_none hn] at hokb ⊢
+          exact finish_of_untilData_eq k2 hctx' (by simp) hokb
       | err e =>
         exfalso
         have hmem : Yield.err e ∈ collect ⟨false, ⟨x, line, p⟩, ctx⟩ := by
